@@ -149,6 +149,9 @@ def cases(seed, tier, shard, nshards):
             for e in chunk:
                 k += 1
                 body += 'Wq%dx\\index{%s} ' % (k, print_entry(e))
+                if r.random() < 0.1:
+                    # glossary entries are written with the same syntax; they are none of the index's business
+                    body += '\\glossary{%s} ' % print_entry(r.choice(entries))
                 if r.random() < 0.2:
                     body += '\n\n'
             body += '\n'
